@@ -180,6 +180,7 @@ func propC10(e *Env) {
 			m.Buckets = []datum.Range{{Min: 0, Max: 1}, {Min: 1, Max: 2}, {Min: 2, Max: 4}}
 		}
 		intended := map[string]int64{}
+		intendedExp := map[string]time.Duration{}
 		nd := e.Choose("gen", 7)
 		switch e.Choose("gen", 4) {
 		case 0:
@@ -257,16 +258,27 @@ func propC10(e *Env) {
 			update(ts)
 			intended[strings.Join(labels, "\x00")] = ts.UnixNano()
 			if exp > 0 {
+				if e.Choose("gen", 3) == 0 {
+					// marked before with another delay: the latest mark is the one that counts
+					other := time.Duration(1+e.Choose("gen", 300)) * time.Hour
+					if err := m.ExpireDatum(other, labels...); err != nil {
+						e.Broken("ExpireDatum: %v", err)
+						return
+					}
+					e.Probe("marked_twice")
+				}
 				if err := m.ExpireDatum(exp, labels...); err != nil {
 					e.Broken("ExpireDatum: %v", err)
 					return
 				}
 			}
+			intendedExp[strings.Join(labels, "\x00")] = exp
 		}
 		gm.data = gcSnapshot(m)
 		for _, d := range gm.data {
 			// the model goes by the instant of the last update as the harness made it
 			d.ts = intended[strings.Join(d.labels, "\x00")]
+			d.expiry = intendedExp[strings.Join(d.labels, "\x00")]
 		}
 		var ds []string
 		for _, d := range gm.data {
